@@ -51,6 +51,7 @@ def worlds(tier):
     for kind_ in ('optional', 'required'):
         ow = K.build_world_overrides(kind_)
         ws.append((ow, dict(zip(K.OPTION_FIELDS, [False] * 4)), 'Rust', True))
+    ws.append((K.build_world_bare(), dict(zip(K.OPTION_FIELDS, [True, True, False, False])), 'Rust', True))
     vp = K.build_world_vertex_plain()
     ws.append((vp, dict(zip(K.OPTION_FIELDS, [False] * 4)), 'Rust', True))
     ws.append((vp, dict(zip(K.OPTION_FIELDS, [False, False, False, True])), 'Glam', True))
